@@ -26,6 +26,7 @@ POOL_THOROUGH = 1200
 SIMPLE_CFG_STEPS = [
     ("nseq", 1),
     ("extras", None),
+    ("mix3", None),
     ("mix", None),
     ("color", None),
     ("npics", 1),
